@@ -58,12 +58,16 @@ def run_suite(chk, name, module, cfg, workers=12, timeout=2400, jobs=12, heap=No
     with open(vec) as f:
         for i, line in enumerate(f):
             v = json.loads(line)
-            if (v['expect']['o'] or v['expect']['e']['k'] == 'err') and count_nodes(v['prog']) >= 3:
+            if 'tokens' in v:
+                chk.nontrivial.add(hash(line))
+                if i % 4999 == 3:
+                    chk.sample({'tokens': ' '.join(v['tokens']), 'parentheses': v.get('pmode'), 'tree': v['tree']})
+            elif (v['expect']['o'] or v['expect']['e']['k'] == 'err') and count_nodes(v['prog']) >= 3:
                 chk.nontrivial.add(hash(line))
                 if i % 997 == 3:
-                    chk.sample({'program': text_of(v), 'input': v['input'], 'expect': v['expect']})
+                    chk.sample({'program': text_of(v), 'input': v.get('input'), 'vars': v.get('vars'), 'expect': v['expect']})
     for b in r['bad']:
-        key = f"{b.get('text')} @ {json.dumps(b.get('vec', {}).get('input'), sort_keys=True)}"
+        key = f"{b.get('text')} @ {json.dumps(b.get('vec', {}).get('input'), sort_keys=True)} {json.dumps(b.get('vec', {}).get('vars'), sort_keys=True)}"
         chk.violation(key, f"{b.get('text')}: {b.get('why')}", b)
     chk.extra.setdefault('suites', {})[name] = {'tlc_states': res['distinct'], 'vectors': n, 'definite': r['definite'],
                                                 'mismatches': len(r['bad']), 'tlc_wall_s': round(res['wall'], 1)}
@@ -281,7 +285,40 @@ def check_C09(chk):
                         'other float results (e.g. 2^70 / 3) are not compared']
 
 
-CHECKS = {'C09': check_C09, 'C08': check_C08, 'C11': check_C11, 'C10': check_C10, 'C01': check_C01, 'C02': check_C02, 'C03': check_C03}
+def check_C15(chk):
+    q = chk.tier == 'quick'
+    chk.rule = ('TLC enumerates syntax trees: every ordered pair of the 25 binary operators (24 + `as $x |`) in both groupings, every triple '
+                '(one representative per precedence level/associativity in quick, all 25^3 in thorough) in all 5 groupings, and every prefix/postfix/'
+                'binder/keyword construct (-, try/catch, ?, path suffixes, label, def, if, reduce, [..], call argument) as left and right operand of every '
+                'operator and around every operator; JaqParse renders each tree to tokens from the documented precedence/associativity table with '
+                'minimal, redundant and full parentheses (invariants Balanced, MinIsMin); the harness joins the tokens with 6 trivia variants (spaces, '
+                'newlines, comments, comments with odd/even backslash continuation, CRLF) and the real parser must return exactly the tree. '
+                'Shorthands: each documented shorthand on 6 inputs, real run validated by TLC against the semantics of its expansion. '
+                'Ill-formed texts (hand list) must be rejected at load/compile time.')
+    def pcfg(shape):
+        return f'SPECIFICATION Spec\nCONSTANT Shape = "{shape}"\nINVARIANT Balanced\nINVARIANT MinIsMin\nCHECK_DEADLOCK FALSE\n'
+    run_suite(chk, 'pairs', 'MC_Parse', pcfg('pairs'))
+    run_suite(chk, 'specials', 'MC_Parse', pcfg('specials'))
+    run_suite(chk, 'triples', 'MC_Parse', pcfg('triples-rep' if q else 'triples-all'))
+    import gen
+    cases = os.path.join(W, 'cases-C15-sugar.ndjson')
+    gen.sugar_cases(cases)
+    validate_traces(chk, 'sugar', cases, chunks=8)
+    # rejects
+    vec = os.path.join(W, 'vec-C15-reject.ndjson')
+    with open(vec, 'w') as f:
+        for i, t in enumerate(gen.REJECTS):
+            f.write(json.dumps({'id': f'reject-{i}', 'mode': 'reject', 'text': t.replace('\\\\', '\\')}) + '\n')
+    r = vlib.replay(vec, os.path.join(W, 'res-C15-reject.ndjson'))
+    chk.evaluations += len(gen.REJECTS)
+    for b in r['bad']:
+        chk.violation(f"reject:{b.get('text')}", f"accepted although ill-formed: {b.get('text')!r}", b)
+    chk.extra['rejects'] = {'texts': len(gen.REJECTS), 'accepted': len(r['bad'])}
+    chk.assumptions += ['the list of ill-formed texts is hand-written (the operational grammar is not yet a TLA+ recogniser); lexing of string escapes and number '
+                        'spellings is covered by C07']
+
+
+CHECKS = {'C15': check_C15, 'C09': check_C09, 'C08': check_C08, 'C11': check_C11, 'C10': check_C10, 'C01': check_C01, 'C02': check_C02, 'C03': check_C03}
 
 
 def main():
